@@ -287,6 +287,47 @@ func runC02(c *core.Ctx, r *core.Result) {
 	eachTerm(c, r, p, func(t *tm.Term) {
 		e0 := t.Build()
 		keys := tm.WireKeys(tm.Encode(e0))
+		// the law of Mark, from the composition (not from the object): an
+		// error built with Mark(x, ref) on its visible chain keeps matching
+		// ref after transfer between knowing processes, however the match
+		// comes about locally
+		for cpos, above := t, false; cpos != nil && !above; cpos = cpos.Kid {
+			if cpos.Op.HidesCause {
+				above = true
+			}
+			if !cpos.Op.SideIsReference || len(cpos.Side) == 0 {
+				continue
+			}
+			refT := cpos.Side[0]
+			report(r, t, map[string]interface{}{"mark_reference": refT.String()}, func(t *tm.Term) string {
+				return guarded("C02", func() string {
+					var refNow *tm.Term
+					for q := t; q != nil; q = q.Kid {
+						if q.Op.SideIsReference && len(q.Side) > 0 {
+							refNow = q.Side[0]
+							break
+						}
+						if q.Op.HidesCause {
+							break
+						}
+					}
+					if refNow == nil {
+						return ""
+					}
+					e, ref := t.Build(), refNow.Build()
+					for k := 1; k <= 2; k++ {
+						e, _ = tm.HopK(e)
+						for _, rr := range []error{ref, func() error { d, _ := tm.HopK(ref); return d }()} {
+							if ok, p := tm.IsG(e, rr); !ok || p {
+								return fail("mark-law-after-transfer", "the composition marks the error with reference %q, but after %d hop(s) Is(e', reference) is false (panic=%v)", errText(ref), k, p)
+							}
+						}
+					}
+					return ""
+				})
+			})
+			r.States += 4
+		}
 		// string variants (a slot holds an alphabet string) are explored with
 		// a reduced set of histories and references: what they add is the
 		// dependence of identity on message fidelity
